@@ -141,7 +141,8 @@ class Index:
                     match = next(matchiter)
                 except StopIteration:
                     return None, None
-                skipped = cursor.set_range(match + add_time + b"\xff")
+                # 32 x 0xff sorts after every event id, also after one that starts with 0xff
+                skipped = cursor.set_range(match + add_time + b"\xff" * 32)
                 if skipped:
                     prev()
                 return match, skipped
